@@ -21,6 +21,7 @@ class Registration:
         self.conv_name = conv_name
         self.key_src = key_src
         self.closure = None          # evaluator closure (folded extraction only)
+        self.nbound = 0              # leading parameters of the hook function bound by functools.partial
 
     @property
     def is_union(self):
@@ -392,8 +393,10 @@ class HooksModule:
     def all_hook_functions(self):
         seen, out = set(), []
         for r in self.registrations:
-            if id(r.hook) not in seen:
-                seen.add(id(r.hook))
+            # one function specialised by functools.partial counts once per distinct argument prefix
+            k = (id(r.hook), repr(getattr(r.closure, "bound", ())))
+            if k not in seen:
+                seen.add(k)
                 out.append(r)
         return out
 
@@ -663,6 +666,7 @@ def fold_registrations(hm: "HooksModule"):
     g["abc"] = ModuleRef("collections.abc", attrs={"Sequence": SEQ_ORIGIN, "Mapping": MAP_ORIGIN})
     g["collections"] = ModuleRef("collections", attrs={"abc": g["abc"]})
     g["Ellipsis"] = Ellipsis
+    g["functools"] = microeval.functools_module()
     it = Interp(name=hm.rel, extra_globals=g)
     hm.fold_interp = it
     hm.fold_from_ty = from_ty
@@ -722,6 +726,7 @@ def fold_registrations(hm: "HooksModule"):
                 r_ = Registration(tv.ty, tv.order, node, getattr(node, "name", "<lambda>"), "<folded>",
                                   node.lineno, fn_name, conv_name, show(tv.ty))
                 r_.closure = hook
+                r_.nbound = len(getattr(hook, "bound", ()))
                 regs.append(r_)
             return ("host", register)
 
